@@ -19,8 +19,8 @@ func (r *run) deliver(p *pruner.Pruner, ev event, ctx context.Context) error {
 }
 
 func sameProbe(a, b map[string]string) string {
-	for f, v := range a {
-		if b[f] != v {
+	for _, f := range []string{"hdr", "h2n", "txs", "txl", "l1l", "su", "cm", "hist", "histnew", "bloom"} {
+		if v, ok := a[f]; ok && b[f] != v {
 			return fmt.Sprintf("family %s: %s vs %s", f, v, b[f])
 		}
 	}
